@@ -523,6 +523,8 @@ func monitor(c Case) (kind, what string, params P) {
 		}
 	case "withstack", "wsws", "wsunwrap", "wsis", "wsas":
 		return monitorWithStack(c)
+	case "extras":
+		return tryExtras(c)
 	}
 	return "", "", nil
 }
